@@ -44,6 +44,25 @@ pub async fn end_of_workload(h: &mut Hyb) {
                 c07_checkpoint(h, "after-wait").await;
             }
         }
+        "C09" => {
+            if let Some(c) = h.cache.clone() {
+                hist::ev("wait_inv", 0, 0, 0);
+                c.storage().wait().await;
+                hist::ev("wait_ret", 0, 0, 0);
+                // wait() does not cover re-insertions a reclaim submits after it was called: let the device go idle
+                crate::simdev::quiesce().await;
+                c.storage().wait().await;
+                crate::simdev::quiesce().await;
+                drop(c);
+                let _ = sweep(h, "final-sweep").await;
+                if let Some(c) = h.cache.clone() {
+                    hist::ev("close_inv", 0, 0, 0);
+                    let _ = c.close().await;
+                    hist::ev("close_ret", 0, 0, 0);
+                    ST.with(|s| s.borrow_mut().closed = true);
+                }
+            }
+        }
         "C01" | "C17" | "C12" | "C15" | "C10" => {
             if h.cache.is_some() && !ST.with(|s| s.borrow().closed) {
                 let rs = sweep(h, "final-sweep").await;
@@ -68,6 +87,7 @@ pub fn post(case: &Case) {
     let _ = Op::Clear;
     match case.property.as_str() {
         "C04" => c04_post(case),
+        "C09" => c09_post(case),
         "C03" => c03_post(case),
         "C12" => c12(case),
         "C15" => c15(case),
@@ -1226,6 +1246,204 @@ pub async fn c07_checkpoint(h: &mut Hyb, what: &'static str) {
                     format!("after-reopen: the image holds an intact newest entry of key {k} but recovery did not index it"),
                     &[("sequence_regression_in_a_block", block_has_sequence_regression(&case).to_string())],
                 );
+            }
+        }
+    }
+}
+
+// ---------------------------------------------------------------------------------------------------------------
+// C09: reusing disk space never damages live entries and never stalls writers.
+
+pub fn c09_post(case: &Case) {
+    use crate::{parser, simdev};
+    let g = crate::hybscn::geo(case);
+    let first_block = if g.tomb { 1 } else { 0 };
+    let evs = hist::events_clone();
+    let writes: Vec<simdev::WriteRec> = simdev::DISK.with(|d| d.borrow().writes.clone());
+    let is_clean = |w: &simdev::WriteRec| w.offset == 0 && w.data.len() == simdev::PAGE && w.data.iter().all(|b| *b == 0);
+    // ---- device-level invariants, in application order
+    let mut applied: Vec<&simdev::WriteRec> = writes.iter().filter(|w| w.apply_seq.is_some() && w.part >= first_block).collect();
+    applied.sort_by_key(|w| w.apply_seq.unwrap());
+    #[derive(Default, Clone)]
+    struct Gen {
+        data: Vec<(usize, usize)>,
+        index: std::collections::BTreeMap<usize, Vec<parser::IndexEntry>>,
+        first_write: Option<u64>,
+        last_write: Option<u64>,
+        fresh_after_clean: bool,
+    }
+    let mut gens: std::collections::BTreeMap<usize, Gen> = Default::default();
+    // finished generations: (block, first_write, last_write, cleaned_at)
+    let mut finished: Vec<(usize, u64, u64, u64)> = vec![];
+    for w in &applied {
+        let t = w.apply_seq.unwrap();
+        let gen_ = gens.entry(w.part).or_default();
+        if is_clean(w) {
+            hist::probe("c09_clean");
+            if let (Some(f), Some(l)) = (gen_.first_write, gen_.last_write) {
+                finished.push((w.part, f, l, t));
+            }
+            *gen_ = Gen { fresh_after_clean: true, ..Default::default() };
+            continue;
+        }
+        let entries = parser::parse_entries(&w.data);
+        let as_index = if entries.is_empty() { parser::parse_blob_index(&w.data) } else { None };
+        if gen_.fresh_after_clean {
+            // the first write of a generation belongs to the blob at offset 0
+            let ok = (as_index.is_some() && w.offset == 0) || (!entries.is_empty() && w.offset == g.blob_index_size);
+            if !ok {
+                hist::violation(
+                    "C09",
+                    "continuation-write-after-clean",
+                    format!("block {} was cleaned (reclaimed) and the next write to it lands at offset {} instead of the start: it was reclaimed while being written", w.part - first_block, w.offset),
+                    &[],
+                );
+            }
+            gen_.fresh_after_clean = false;
+        }
+        // fill order is program (issue) order: completions of one batch's block writes may be reordered
+        gen_.first_write = Some(gen_.first_write.map(|f| f.min(w.issue_seq)).unwrap_or(w.issue_seq));
+        gen_.last_write = Some(gen_.last_write.map(|l| l.max(w.issue_seq)).unwrap_or(w.issue_seq));
+        if let Some(idx) = as_index {
+            // a blob index is only ever rewritten with a superset of its entries
+            if let Some(old) = gen_.index.get(&w.offset) {
+                if !old.iter().all(|o| idx.contains(o)) {
+                    hist::violation(
+                        "C09",
+                        "blob-index-rewritten-with-different-entries",
+                        format!("block {} blob at {}: the index was rewritten dropping entries it held ({} -> {} entries): two writers, or rewritten while live", w.part - first_block, w.offset, old.len(), idx.len()),
+                        &[],
+                    );
+                }
+            }
+            gen_.index.insert(w.offset, idx);
+        } else if !entries.is_empty() {
+            hist::probe("c09_data_write_checked");
+            let (s, e) = (w.offset, w.offset + w.data.len());
+            if let Some((os, oe)) = gen_.data.iter().find(|(os, oe)| s < *oe && *os < e) {
+                hist::violation(
+                    "C09",
+                    "data-overwritten-within-generation",
+                    format!("block {}: bytes [{s}..{e}) were written although [{os}..{oe}) had been written since the block's last clean: a block handed to two writers or rewritten while live", w.part - first_block),
+                    &[],
+                );
+            }
+            gen_.data.push((s, e));
+        }
+    }
+    // two in-flight writes to overlapping ranges of one block
+    for (i, a) in writes.iter().enumerate() {
+        if a.part < first_block {
+            continue;
+        }
+        for b in writes.iter().skip(i + 1) {
+            if b.part != a.part {
+                continue;
+            }
+            let (a_end, b_end) = (a.apply_seq.unwrap_or(u64::MAX), b.apply_seq.unwrap_or(u64::MAX));
+            let overlap_time = a.issue_seq < b_end && b.issue_seq < a_end;
+            let overlap_range = a.offset < b.offset + b.data.len() && b.offset < a.offset + a.data.len();
+            if overlap_time && overlap_range && a.generation == b.generation {
+                hist::violation(
+                    "C09",
+                    "overlapping-in-flight-writes",
+                    format!("block {}: writes #{} [{}+{}] and #{} [{}+{}] were in flight at the same time", a.part - first_block, a.idx, a.offset, a.data.len(), b.idx, b.offset, b.data.len()),
+                    &[],
+                );
+            }
+        }
+    }
+    if !finished.is_empty() {
+        hist::set_nontrivial();
+    }
+    // ---- FIFO: without deletes (and without dropped updates) blocks are reclaimed oldest-filled first
+    let no_invalidation = !evs.iter().any(|e| e.kind == "h_remove" || e.kind == "shed");
+    // (with several flushers a block only becomes reclaimable when ITS flusher moves on, which the device cannot see:
+    // the order is judged for single-flusher runs, where blocks fill strictly one after another)
+    if no_invalidation && case.get("picker") == 0 && case.get("flushers") == 1 && case.get("reclaimers") <= 1 {
+        for a in &finished {
+            for b in &finished {
+                // a was completely filled before b saw its first write, yet b was reclaimed first
+                if a.2 < b.1 && b.3 < a.3 {
+                    hist::probe("c09_fifo_pair");
+                    hist::violation(
+                        "C09",
+                        "not-oldest-first",
+                        format!("block {} finished filling at {} before block {} was first written at {}, yet block {} was reclaimed first ({} < {})", a.0 - first_block, a.2, b.0 - first_block, b.1, b.0 - first_block, b.3, a.3),
+                        &[],
+                    );
+                } else if a.2 < b.1 {
+                    hist::probe("c09_fifo_pair");
+                }
+            }
+        }
+    }
+    if let Ok(h) = std::env::var("VERIF_DUMP_HASH") {
+        let h: u64 = h.parse().unwrap_or(0);
+        for w in entry_writes().iter().filter(|w| w.hash == h) {
+            eprintln!("[dump] entry hash {h} seq {} ver {:?} part {} off {} issue@{} apply@{:?}", w.sequence, w.ver, w.part, w.offset, w.issue_seq, w.apply_seq);
+        }
+        for w in applied.iter().filter(|w| is_clean(w)) {
+            eprintln!("[dump] clean part {} apply@{:?}", w.part, w.apply_seq);
+        }
+        for e in evs.iter().filter(|e| (e.kind == "shed_reinsertion" || e.kind == "enqueue" || e.kind == "shed" || e.kind == "sweep_get") && e.a == h) {
+            eprintln!("[dump] ev #{} {} {} {} {}", e.seq, e.kind, e.a, e.b, e.c);
+        }
+    }
+    // ---- liveness: the final wait()/close() returned (a hang is reported by the runtime as deadlock / step bound)
+    if evs.iter().any(|e| e.kind == "close_ret") {
+        hist::probe("c09_close_returned");
+    }
+    // ---- reinsertion: entries selected by the reinsertion filter survive their block's reclaim
+    let m = case.get("reinsert_mod").max(0) as u64;
+    if m > 0 {
+        let ew = entry_writes();
+        let model = ST.with(|s| s.borrow().model.clone());
+        let final_reads: std::collections::BTreeMap<u64, (u64, u64)> = evs.iter().filter(|e| e.kind == "sweep_get").map(|e| (e.a, (e.b, e.c))).collect();
+        let hmode = case.get("hmode") as u8;
+        for (k, km) in model.iter() {
+            let h = crate::hybscn::hash_of(hmode, *k);
+            if h % m != 0 {
+                continue;
+            }
+            let Some(cur) = km.cur else { continue };
+            let flushed = ew.iter().any(|w| w.key == Some(*k) && w.ver == Some(cur) && w.apply_seq.is_some());
+            let excused = evs.iter().any(|e| (e.kind == "shed_reinsertion" || e.kind == "shed") && e.a == h);
+            if !flushed || excused {
+                continue;
+            }
+            // was its block reclaimed at all after it was written?
+            let Some(wrote) = ew.iter().filter(|w| w.key == Some(*k) && w.ver == Some(cur)).filter_map(|w| w.apply_seq.map(|a| (a, w.part))).min() else { continue };
+            let reclaimed = applied.iter().any(|w| w.part == wrote.1 && is_clean(w) && w.apply_seq.unwrap() > wrote.0);
+            if !reclaimed {
+                continue;
+            }
+            hist::probe("c09_reinsertion_checked");
+            if let Some((got, tag)) = final_reads.get(k) {
+                if *tag != Res::HIT as u64 || *got as u32 != cur {
+                    // classification aid: was the entry's old position read after its block had been cleaned and before a
+                    // re-inserted copy of it was written? (such a lookup drops the index entry, and the pending
+                    // re-insertion is then skipped)
+                    let first = ew.iter().filter(|w| w.key == Some(*k) && w.ver == Some(cur)).min_by_key(|w| w.apply_seq.unwrap_or(u64::MAX)).cloned();
+                    let raced = first
+                        .map(|f| {
+                            let clean_at = applied.iter().filter(|w| w.part == f.part && is_clean(w) && w.apply_seq.unwrap() > f.apply_seq.unwrap_or(0)).map(|w| w.apply_seq.unwrap()).min().unwrap_or(u64::MAX);
+                            let copy_at = ew
+                                .iter()
+                                .filter(|w| w.hash == f.hash && w.sequence == f.sequence && (w.part, w.offset) != (f.part, f.offset))
+                                .filter_map(|w| w.apply_seq)
+                                .min()
+                                .unwrap_or(u64::MAX);
+                            evs.iter().any(|e| e.kind == "dev_read_issue" && e.a as usize == f.part && e.b as usize == f.offset && e.seq > clean_at && e.seq < copy_at)
+                        })
+                        .unwrap_or(false);
+                    hist::violation(
+                        "C09",
+                        "reinsertion-lost",
+                        format!("key {k} is selected by the reinsertion filter, its current version v{cur} was on disk when its block was reclaimed, nothing shed it, yet it is not loadable afterwards"),
+                        &[("flushers", case.get("flushers").to_string()), ("old_position_read_after_clean_before_copy", raced.to_string())],
+                    );
+                }
             }
         }
     }
